@@ -23,7 +23,7 @@ type params struct {
 	op     string // tell | ask | kill | poison | watch | unwatch | ping | pipe-ok | pipe-err | pipe-remote-forwarder | once | loop | watch2 | unwatch2a | unwatch2b
 	remote bool
 	codec  bool
-	pre    string // "" | bad-tell: before the operation the caller Tells the target a message its registered writer rejects
+	pre    string // "" | reused-name: the target has received one message, was killed and an actor with the same name was spawned again | first-contact: another actor of the caller's system uses the remote address for the first time at the same moment (watch-kill only) | bad-tell: before the operation the caller Tells the target a message its registered writer rejects
 }
 
 func (p params) name() string {
@@ -49,6 +49,9 @@ func text(m any) string {
 func scenario(p params, bounds []int) *vexp.Scenario {
 	cfg := vsys.CoarseSends(400000)
 	cfg.SwitchOnNet = true
+	if p.pre == "first-contact" {
+		cfg.FinePkgs = []string{"vivid/internal/remoting."}
+	}
 	return &vexp.Scenario{
 		Name:   p.name(),
 		Family: p.op,
@@ -81,25 +84,28 @@ func scenario(p params, bounds []int) *vexp.Scenario {
 			}
 			var targetSaw, callerSaw, fwdSaw []string
 			var killer string
-			tw.SpawnRoot(&vsys.Script{Name: "target",
-				OnOther: func(a *vsys.Act, ctx vivid.ActorContext, m any) {
-					if _, bad := m.(*vcodec.ShortTagMsg); bad {
-						return // only a local target can see it at all; not part of the comparison
-					}
-					s := text(m)
-					targetSaw = append(targetSaw, s)
-					switch {
-					case strings.HasPrefix(s, "ask"):
-						ctx.Reply(payload("re:" + s))
-					case strings.HasPrefix(s, "fail"):
-						panic("target fails while serving a piped request")
-					}
-				},
-				OnKill: func(a *vsys.Act, ctx vivid.ActorContext, m *vivid.OnKill) {
-					if m.Killer != nil {
-						killer = m.Killer.GetAddress() + m.Killer.GetPath()
-					}
-				}})
+			targetScript := func() *vsys.Script {
+				return &vsys.Script{Name: "target",
+					OnOther: func(a *vsys.Act, ctx vivid.ActorContext, m any) {
+						if _, bad := m.(*vcodec.ShortTagMsg); bad {
+							return // only a local target can see it at all; not part of the comparison
+						}
+						s := text(m)
+						targetSaw = append(targetSaw, s)
+						switch {
+						case strings.HasPrefix(s, "ask"):
+							ctx.Reply(payload("re:" + s))
+						case strings.HasPrefix(s, "fail"):
+							panic("target fails while serving a piped request")
+						}
+					},
+					OnKill: func(a *vsys.Act, ctx vivid.ActorContext, m *vivid.OnKill) {
+						if m.Killer != nil {
+							killer = m.Killer.GetAddress() + m.Killer.GetPath()
+						}
+					}}
+			}
+			tw.SpawnRoot(targetScript())
 			// forwarder for PipeTo: local to the caller, or on the other system
 			fw := wa
 			faddr := addrA
@@ -122,6 +128,9 @@ func scenario(p params, bounds []int) *vexp.Scenario {
 			wa.SpawnRoot(&vsys.Script{Name: "caller",
 				OnMsg: func(a *vsys.Act, ctx vivid.ActorContext, m vsys.Msg) {
 					switch m.ID {
+					case "watch-kill":
+						ctx.Watch(target)
+						ctx.Kill(target, false, "c15")
 					case "bad-tell":
 						ctx.Tell(target, &vcodec.ShortTagMsg{Tag: strings.Repeat("t", 300)})
 					case "tell":
@@ -187,8 +196,9 @@ func scenario(p params, bounds []int) *vexp.Scenario {
 				vrt.Quiesce()
 				vrt.SetHorizon(0)
 			}
+			killedBase := 0
 			killedEvents := func() int {
-				n := 0
+				n := -killedBase
 				for _, pb := range tw.PubsOf("ActorKilledEvent") {
 					if pb.Ref == "/target" {
 						n++
@@ -204,7 +214,38 @@ func scenario(p params, bounds []int) *vexp.Scenario {
 				do("bad-tell")
 				settle(time.Second)
 			}
+			if p.pre == "reused-name" {
+				do("tell")
+				settle(time.Second)
+				tw.Sys.Kill(tw.Ref("/target"), false, "driver")
+				settle(time.Second)
+				if _, err := tw.SpawnRoot(targetScript()); err != nil {
+					x.Fail("harness", "re-spawn of target: %v", err)
+				}
+				settle(time.Second)
+				targetSaw, callerSaw, killer = nil, nil, ""
+				killedBase = 1
+				// a reference that was used while the first actor lived stays bound to it (see C03); the comparison is about
+				// reaching the actor that owns the name now, so the caller takes a fresh reference - for the local and the remote target alike
+				target, _ = wa.Sys.CreateRef(taddr, "/target")
+			}
 			switch p.op {
+			case "watch-kill":
+				if p.pre == "first-contact" {
+					// another actor of the same system contacts the same remote system for the first time at this very moment
+					wa.SpawnRoot(&vsys.Script{Name: "other", OnMsg: func(a *vsys.Act, ctx vivid.ActorContext, m vsys.Msg) {
+						r, _ := wa.Sys.CreateRef(taddr, "/fwd-nobody")
+						ctx.Tell(r, payload("noise"))
+					}})
+					vrt.QuiesceNoTimers()
+					wa.Sys.Tell(wa.Ref("/other"), vsys.Msg{ID: "go"})
+				}
+				do("watch-kill")
+				settle(2 * time.Second)
+				want := "OnKilled:" + taddr + "/target"
+				if strings.Join(callerSaw, ",") != want {
+					x.Fail("watch-delivers-onkilled", "Watch followed by Kill of a %s target from one handler: the watcher saw %v, expected [%s]", where, callerSaw, want)
+				}
 			case "watch2", "unwatch2a", "unwatch2b":
 				do("watch")
 				settle(time.Second)
@@ -313,6 +354,7 @@ func scenario(p params, bounds []int) *vexp.Scenario {
 			}
 			x.Outcome(fmt.Sprintf("%v|%v|%v|%v", targetSaw, callerSaw, fwdSaw, callerSawB))
 			x.Logf("target %v caller %v fwd %v", targetSaw, callerSaw, fwdSaw)
+			vrt.Freeze()
 			wa.Sys.Stop()
 			wb.Sys.Stop()
 			settle(time.Minute)
@@ -338,6 +380,19 @@ func build(tier string) []*vexp.Scenario {
 			out = append(out, scenario(params{op: op, remote: remote}, bounds))
 		}
 	}
+	// the same operations on a name that has been used before (the first actor received mail, died, a new one took the name)
+	for _, op := range []string{"tell", "ask", "kill", "watch", "ping", "pipe-ok"} {
+		for _, remote := range []bool{false, true} {
+			out = append(out, scenario(params{op: op, remote: remote, pre: "reused-name"}, []int{0}))
+		}
+	}
+	// an order-dependent pair (Watch, then Kill) from one handler, alone and racing another actor's first contact with the peer
+	for _, remote := range []bool{false, true} {
+		out = append(out, scenario(params{op: "watch-kill", remote: remote}, bounds))
+	}
+	out = append(out, vexp.Split(8, func() *vexp.Scenario {
+		return scenario(params{op: "watch-kill", remote: true, pre: "first-contact"}, []int{0, 1, 2})
+	})...)
 	// the same operations right after one message was (legitimately) rejected by its writer
 	for _, op := range []string{"tell", "ask", "kill", "watch", "ping", "pipe-ok", "pipe-remote-forwarder", "once"} {
 		for _, remote := range []bool{false, true} {
